@@ -407,6 +407,7 @@ theorem pstep_apply (g : G) (a : Action) : PStep g (g.apply a).1 := by
       · exact PStep.of_eq rfl rfl rfl rfl
       · exact PStep.trans (PStep.of_eq (g := g) (g' := { g with sem := g.sem - 1 }) rfl rfl rfl rfl)
           (pstep_wake _ _)
+  | cancelRem p => exact pstep_deliverCancels g _
 
 theorem pinv_react (g : G) (a : Action) (hl : LInv g) (h : PInv g) : PInv (react g a).1 := by
   unfold react
